@@ -43,19 +43,19 @@ ASSUMPTIONS = [
     "after the render returned/raised (real loop), before loop.shutdown_asyncgens()",
 ]
 NSHARDS = {"quick": 16, "thorough": 16}
-BUDGET_S = {"quick": 15, "thorough": 480}
+BUDGET_S = {"quick": 12, "thorough": 420}
 FLOORS = {
-    "quick": {"evaluations": 10000, "distinct": 8000,
-              "counters": {"runs_cancel_manual": 4000, "runs_aclose": 1800, "runs_raise": 3000,
-                           "runs_real_loop": 900, "gens_template_registered": 120000,
-                           "gens_loop_filter_registered": 45000, "gens_block_registered": 25000,
-                           "census_checks": 10000}},
-    "thorough": {"evaluations": 150000, "distinct": 120000,
-                 "counters": {"runs_cancel_manual": 60000, "runs_aclose": 25000,
-                              "runs_raise": 45000, "runs_real_loop": 12000,
-                              "gens_template_registered": 1500000,
-                              "gens_loop_filter_registered": 600000,
-                              "gens_block_registered": 350000, "census_checks": 150000}},
+    "quick": {"evaluations": 6000, "distinct": 5500,
+              "counters": {"runs_cancel_manual": 2600, "runs_aclose": 1100, "runs_raise": 1800,
+                           "runs_real_loop": 580, "gens_template_registered": 80000,
+                           "gens_loop_filter_registered": 30000, "gens_block_registered": 19000,
+                           "census_checks": 6000}},
+    "thorough": {"evaluations": 60000, "distinct": 55000,
+                 "counters": {"runs_cancel_manual": 26000, "runs_aclose": 11000,
+                              "runs_raise": 18000, "runs_real_loop": 5800,
+                              "gens_template_registered": 800000,
+                              "gens_loop_filter_registered": 300000,
+                              "gens_block_registered": 190000, "census_checks": 60000}},
 }
 
 CAUSE = {"complete": "completes", "raise": "body-raises", "aclose": "consumer-aclose",
